@@ -50,6 +50,9 @@ CLAIMED = {
     "C16": ("property-based differential testing across processes: a model run alone vs after / between / concurrently with other model runs",
             "Generated pairs of programs (incl. failing ones, thread-locals, lazy statics) in three composition modes; the full iteration sequence of P must equal that of P alone in a fresh process; per-iteration invariants on thread ids and lazy-static initialisation. The concurrent mode is a stress check.",
             "OS schedule of concurrent models is not controlled; fingerprints are normalised for addresses and hash-map destructor order.", "4/C16"),
+    "C17": ("property-based testing: R-SC comparison + per-iteration bookkeeping invariants for thread-locals and lazy statics",
+            "Bounded generated programs over two loom thread-locals and two loom lazy statics from 1-4 threads: lazily-once-per-thread / once-per-execution initialisation, privacy, destruction by the owning thread with AccessError from the destructor, a single shared instance, initialisation happens-before access (race detector), re-initialisation in the next iteration.",
+            "Initialisers contain no scheduling point; destructor order within a thread is not asserted (loom uses a hash map).", "4/C17"),
     "C19": ("property-based testing: product / subset oracles for exploration controls, boundary-value generation for limits",
             "Phase programs with one or two frozen phases must yield exactly the product of the explored phases; arbitrary legal placements must yield a subset with valid executions; max_branches / max_threads panic exactly when the need exceeds the limit; max_permutations / max_duration stop between iterations within the documented boundary.",
             "Phases are independent by construction; max_duration only at its deterministic ends.", "4/C19"),
